@@ -124,6 +124,11 @@ def _hash_numeric_tower(pid, facet, spec, label):
         and label == "C03:hash-numeric-tower"
 
 
+@matcher("hash-dict-order")
+def _hash_dict_order(pid, facet, spec, label):
+    return pid == "C03" and label == "C03:hash-dict-order"
+
+
 @matcher("hash-word-vs-box")
 def _hash_word_vs_box(pid, facet, spec, label):
     return pid == "C03" and label == "C03:hash-word-vs-box"
